@@ -62,7 +62,7 @@ func init() {
 	reg("C13", propCfg{Quick: tierCfg{Checks: 3000, Timeout: 8 * m}, Thor: tierCfg{Checks: 200000, Timeout: 60 * m}})
 	reg("C14", propCfg{Quick: tierCfg{Checks: 20000, Timeout: 8 * m}, Thor: tierCfg{Checks: 2000000, Timeout: 60 * m}})
 	reg("C15", propCfg{Quick: tierCfg{Checks: 100000, Timeout: 8 * m}, Thor: tierCfg{Checks: 5000000, Timeout: 60 * m}})
-	reg("C16", propCfg{Quick: tierCfg{Checks: 20000, Timeout: 8 * m}, Thor: tierCfg{Checks: 2000000, Timeout: 60 * m}})
+	reg("C16", propCfg{Quick: tierCfg{Checks: 100000, Timeout: 8 * m}, Thor: tierCfg{Checks: 2000000, Timeout: 60 * m}})
 	reg("C17", propCfg{Quick: tierCfg{Checks: 4000, Timeout: 8 * m}, Thor: tierCfg{Checks: 300000, Timeout: 60 * m}})
 	reg("C18", propCfg{Quick: tierCfg{Checks: 2000, Timeout: 8 * m}, Thor: tierCfg{Checks: 150000, Timeout: 60 * m}})
 	reg("C19", propCfg{Race: true, Quick: tierCfg{Checks: 160, Shards: 4, Timeout: 8 * m}, Thor: tierCfg{Checks: 6000, Shards: 4, Timeout: 60 * m}})
